@@ -246,6 +246,7 @@ class Chunks(Harness):
         first = g.get_samples()
         self._check_block(ctx, first, 0, z3.IntVal(0), 1, pos_shape, L, Fd,
                           Ts, phi, psi, scale, 'ctor')
+        held = [(first, list(np.asarray(first, dtype=object).flat))]
         for j, op in enumerate(cfg['seq']):
             if op == 's':
                 s = ctx.integer('s%d' % j, 0, 10**10)
@@ -259,9 +260,21 @@ class Chunks(Harness):
             else:
                 n = int(op[1])
                 g.generate_more_samples(n)
-                self._check_block(ctx, g.get_samples(), j, kz, n, pos_shape,
+                blk = g.get_samples()
+                self._check_block(ctx, blk, j, kz, n, pos_shape,
                                   L, Fd, Ts, phi, psi, scale, op)
+                held.append((blk, list(np.asarray(blk, dtype=object).flat)))
                 kz = kz + n
+        # arrays handed out earlier are the caller's: later requests must not
+        # write into them
+        same = True
+        for arr, vals in held:
+            now = list(np.asarray(arr, dtype=object).flat)
+            if len(now) != len(vals) or any(
+                    not (a is b or bool(a == b)) for a, b in zip(now, vals)):
+                same = False
+        ctx.record('earlier-blocks-unchanged', 'unsat' if same else 'sat',
+                   'structural', model={})
 
     def _check_block(self, ctx, h, j, kz, n, pos_shape, L, Fd, Ts, phi, psi,
                      scale, tag):
@@ -356,6 +369,7 @@ class Chunks(Harness):
         phi, psi = g._phi_l, g._psi_l
         k = 1
         bad = []
+        held = []
         for j, op in enumerate(cfg['seq']):
             if op == 's':
                 s = int(m.get('s%d' % j, 5)) if skip is None else skip
@@ -385,7 +399,13 @@ class Chunks(Harness):
                 if not np.allclose(h, ref, atol=tol):
                     bad.append(('value', j, float(np.max(np.abs(h - ref)))))
                     break
+                held.append((h, ref, tol, j))
                 k += n
+        if not bad:
+            for h, ref, tol, j in held:
+                if h.shape != ref.shape or not np.allclose(h, ref, atol=tol):
+                    bad.append(('earlier-block-overwritten', j))
+                    break
         return dict(reproduced=bool(bad),
                     key='C14/jakes/chunks:' + (bad[0][0] if bad else '') + (
                         ':after-shape-change' if 'S' in cfg['seq'] else ''),
